@@ -160,10 +160,241 @@ example : languagesWithBadTags (fun c => c = "en".toList)
     = ["French".toList, "Bosnian (bos)".toList] := by decide
 example : ianaDue (fun c => c = "en".toList) "fr".toList = true := by decide
 
+
+/-! ## Row-level warnings -/
+
+/-- **Row-level warnings, all kinds at once.**  After a successful row loop a warning is in the list iff it was
+    there before or it is due for some row (numbered from `n`). -/
+theorem row_warning_iff (rows : List PRow) (n : Nat) (st st' : St) (h : rowLoop n rows st = .ok st') (w : W) :
+    w ∈ st'.warnings ↔ w ∈ st.warnings ∨ ∃ i r, rows[i]? = some r ∧ w ∈ rowDue (n + i) r := by
+  rw [(rowLoop_ok rows n st st' h).1, List.mem_append, mem_rowsDue]
+
+theorem or_other_flag (rows : List PRow) (n : Nat) (st st' : St) (h : rowLoop n rows st = .ok st') :
+    st'.orOther = (st.orOther || rows.any orOtherRow) := (rowLoop_ok rows n st st' h).2
+
+/-! per kind: when is a warning of that kind due for row `n` -/
+
+theorem disabled_iff (n m : Nat) (r : PRow) : W.disabled m ∈ rowDue n r ↔ m = n ∧ disabledTrig r = true := by
+  simp only [rowDue, disabledTrig, List.mem_append]
+  constructor
+  · rintro (((((h | h) | h) | h) | h) | h) <;> (try (split at h)) <;> (try (split at h)) <;> (try (split at h)) <;> simp_all
+  · rintro ⟨rfl, h⟩; simp [h]
+
+theorem skipped_iff (n m : Nat) (r : PRow) : W.skipped m ∈ rowDue n r ↔ m = n ∧ skippedTrig r = true := by
+  simp only [rowDue, List.mem_append]
+  constructor
+  · rintro (((((h | h) | h) | h) | h) | h) <;> (try (split at h)) <;> (try (split at h)) <;> (try (split at h)) <;> simp_all
+  · rintro ⟨rfl, h⟩; simp [h]
+
+theorem deprecated_iff (n m : Nat) (r : PRow) (t : Str) :
+    W.deprecated m t ∈ rowDue n r ↔ m = n ∧ deprecatedTrig r t = true := by
+  simp only [rowDue, List.mem_append]
+  constructor
+  · rintro (((((h | h) | h) | h) | h) | h) <;> (try (split at h)) <;> (try (split at h)) <;> (try (split at h)) <;> simp_all
+  · rintro ⟨rfl, h⟩
+    have hty : rowType r = some t := by
+      simp only [deprecatedTrig, Bool.and_eq_true, decide_eq_true_eq] at h
+      exact h.1.1.2
+    simp [hty, h]
+
+theorem no_label_iff (n m : Nat) (r : PRow) (ct : Str) :
+    W.noLabel m ct ∈ rowDue n r ↔ m = n ∧ noLabelTrig r ct = true := by
+  simp only [rowDue, List.mem_append]
+  constructor
+  · rintro (((((h | h) | h) | h) | h) | h) <;> (try (split at h)) <;> (try (split at h)) <;> (try (split at h)) <;> simp_all
+  · rintro ⟨rfl, h⟩
+    have h' := h
+    simp only [noLabelTrig, Bool.and_eq_true] at h'
+    cases hty : rowType r with
+    | none => simp [hty] at h'
+    | some t =>
+      simp only [hty, Bool.and_eq_true, decide_eq_true_eq] at h'
+      simp [hty, h'.1.2.2, h]
+
+theorem ext_no_filter_iff (n m : Nat) (r : PRow) :
+    W.extNoFilter m ∈ rowDue n r ↔ m = n ∧ extNoFilterTrig r = true := by
+  simp only [rowDue, List.mem_append]
+  constructor
+  · rintro (((((h | h) | h) | h) | h) | h) <;> (try (split at h)) <;> (try (split at h)) <;> (try (split at h)) <;> simp_all
+  · rintro ⟨rfl, h⟩; simp [h]
+
+theorem no_max_pixels_iff (n m : Nat) (r : PRow) :
+    W.noMaxPixels m ∈ rowDue n r ↔ m = n ∧ noMaxPixelsTrig r = true := by
+  simp only [rowDue, List.mem_append]
+  constructor
+  · rintro (((((h | h) | h) | h) | h) | h) <;> (try (split at h)) <;> (try (split at h)) <;> (try (split at h)) <;> simp_all
+  · rintro ⟨rfl, h⟩; simp [h]
+
+
+example : (rowOut 3 [(["type".toList], "image".toList), (["name".toList], "p".toList)]).toOption.map (·.ws)
+    = some [W.noMaxPixels 3] := by decide +kernel
+example : (rowOut 4 [(["type".toList], "begin group".toList), (["name".toList], "g".toList),
+      (["disabled".toList], "no".toList)]).toOption.map (·.ws)
+    = some [W.disabled 4, W.noLabel 4 "group".toList] := by decide +kernel
+example : noMaxPixelsTrig [(["type".toList], "image".toList), (["name".toList], "p".toList)] = true := by decide +kernel
+
+
+/-! ## Choices sheet, or_other -/
+
+/-- **choice_no_label_iff.**  When the choices sheet is accepted, the warnings of `validate_choice_list` (run per
+    list, lists in first-seen order) are exactly: one `[row : n]` warning for every numbered choice row that has a
+    list name and no label. -/
+theorem choice_no_label_iff (rows : List (Nat × PRow)) (ws : List W)
+    (h : choicesWarnings (groupChoices rows) = .ok ws) (w : W) : w ∈ ws ↔ w ∈ choiceDue rows := by
+  rw [choicesWarnings_mem _ ws h w]
+  simp only [choiceDue, List.mem_filterMap]
+  constructor
+  · rintro ⟨g, hg, nr, hnr, hl, rfl⟩
+    have := (foldl_gstep_mem rows [] nr).mp ⟨g, by rw [← groupChoices_eq]; exact hg, hnr⟩
+    simp only [List.not_mem_nil, false_and, exists_false, false_or] at this
+    exact ⟨nr, this.1, by simp [this.2, hl]⟩
+  · rintro ⟨nr, hnr, hval⟩
+    split at hval
+    · rename_i hc
+      simp only [Bool.and_eq_true, Bool.not_eq_true'] at hc
+      simp only [Option.some.injEq] at hval
+      obtain ⟨g, hg, hx⟩ := (foldl_gstep_mem rows [] nr).mpr (Or.inr ⟨hnr, hc.1⟩)
+      exact ⟨g, by rw [groupChoices_eq]; exact hg, nr, hx, hc.2, hval.symm⟩
+    · cases hval
+
+example : (choicesWarnings (groupChoices (numberFrom 2
+    [[(["list name".toList], "l".toList), (["name".toList], "a".toList), (["label".toList], "A".toList)],
+     [(["list name".toList], "m".toList), (["name".toList], "x".toList)],
+     [(["list name".toList], "l".toList), (["name".toList], "a".toList)]]))).toOption
+    = some [W.choiceNoLabel 4, W.choiceNoLabel 3] := by decide +kernel
+
+/-- **or_other_iff.**  `or_other_check` emits its warning iff some select row was spelled with or_other (`flag`,
+    characterised by `or_other_flag`) and some translatable column on either sheet carries a language. -/
+theorem or_other_iff (svh chh : List (List Str)) (hsv : trShort surveyTrTable svh = true)
+    (hch : trShort choicesTrTable chh = true) (flag : Bool) :
+    orOtherCheck flag (findTranslations surveyTrTable svh) (findTranslations choicesTrTable chh) =
+      if flag && (translated (trPairs surveyTrTable svh) || translated (trPairs choicesTrTable chh))
+      then [W.orOther] else [] := by
+  unfold orOtherCheck
+  rw [seenDefaultOnly_iff _ _ (findTranslations_inv _ _ hsv) (findTranslations_keys_nodup _ _),
+    seenDefaultOnly_iff _ _ (findTranslations_inv _ _ hch) (findTranslations_keys_nodup _ _)]
+  simp
+
+example : orOtherCheck true (findTranslations surveyTrTable [["label".toList, "fr".toList]])
+    (findTranslations choicesTrTable [["label".toList]]) = [W.orOther] := by decide +kernel
+
+/-! ## Advisory only -/
+
+/-- **warnings_advisory.**  The conversion result does not depend on the warnings list passed in, and that list is
+    only appended to. -/
+theorem warnings_advisory (lower : Str → Str) (wb : WB) (v : View) (w0 : List W) :
+    convertOn lower wb v w0 = (convertOn lower wb v []).map (fun p => (p.1, w0 ++ p.2)) := by
+  rw [convertOn_eq, convertOn_eq lower wb v []]
+  cases choicesWarnings (groupChoices (numberFrom 2 v.chRows)) with
+  | error e => rfl
+  | ok chW =>
+    simp only [List.nil_append]
+    have h := rowLoop_frame w0 v.svRows 2 { warnings := preRows lower wb v chW }
+    simp only at h
+    rw [h]
+    cases rowLoop 2 v.svRows { warnings := preRows lower wb v chW } with
+    | error e => rfl
+    | ok st => simp [Except.map, List.append_assoc]
+
+example : (convertOn lowerAscii
+    { sheetNames := ["survey".toList, "setting".toList], surveyHeader := [], survey := [], choicesHeader := [], choices := [],
+      settingsHeader := [], settingsRows := 0, hasEntities := false }
+    { chHeaders := [], chRows := [], svHeaders := [["type".toList], ["name".toList]],
+      svRows := [[(["type".toList], "simserial".toList), (["name".toList], "s".toList)]] } [W.orOther]).toOption.map (·.2)
+    = some [W.orOther, W.misspell "settings".toList ["setting".toList], W.deprecated 2 "simserial".toList] := by decide +kernel
+
+/-! ## The whole workbook: model = specification -/
+
+theorem misspell_eq (lower : Str → Str) (key : String) (names : List Str) :
+    misspellW lower key names = misspellDue lev lower key names := by
+  have hf : misspellCands lower supported key.toList names
+      = names.filter (isMisspelling lev lower supported key.toList) := by
+    unfold misspellCands
+    apply List.filter_congr
+    intro s _
+    simp [isMisspelling, lev_correct]
+  unfold misspellW findSheetMisspellings misspellDue
+  rw [hf]
+  cases names.filter (isMisspelling lev lower supported key.toList) <;> rfl
+
+theorem mem_missingToW (sheet : String) (m : List (Str × List Str)) (w : W) :
+    w ∈ missingToW sheet m ↔ ∃ l c, w = W.missingTr sheet.toList l c ∧ ∃ cols, (l, cols) ∈ m ∧ c ∈ cols := by
+  simp only [missingToW, List.mem_flatMap, List.mem_map]
+  constructor
+  · rintro ⟨e, he, c, hc, rfl⟩; exact ⟨e.1, c, rfl, e.2, he, hc⟩
+  · rintro ⟨l, c, rfl, cols, he, hc⟩; exact ⟨(l, cols), he, c, hc, rfl⟩
+
+theorem mem_missingDue (sheet : String) (ps : List (Str × Str)) (w : W) :
+    w ∈ missingDue sheet ps ↔ ∃ l c, w = W.missingTr sheet.toList l c ∧ trMissing ps l c = true := by
+  simp only [missingDue, List.mem_flatMap, List.mem_map, List.mem_filter, List.mem_eraseDups]
+  constructor
+  · rintro ⟨l, _, c, ⟨_, h⟩, rfl⟩; exact ⟨l, c, rfl, h⟩
+  · rintro ⟨l, c, rfl, h⟩
+    have h' := h
+    simp only [trMissing, Bool.and_eq_true, List.any_eq_true, decide_eq_true_eq] at h'
+    obtain ⟨⟨⟨p, hp, rfl⟩, ⟨q, hq, rfl⟩⟩, _⟩ := h'
+    exact ⟨p.2, ⟨p, hp, rfl⟩, q.1, ⟨⟨q, hq, rfl⟩, h⟩, rfl⟩
+
+theorem missing_eq (sheet : String) (tbl : Aliases) (hs : List (List Str)) (hsh : trShort tbl hs = true) (w : W) :
+    w ∈ missingToW sheet (findMissing (findTranslations tbl hs)) ↔ w ∈ missingDue sheet (trPairs tbl hs) := by
+  rw [mem_missingToW, mem_missingDue]
+  constructor
+  · rintro ⟨l, c, rfl, h⟩; exact ⟨l, c, rfl, (missing_translation_iff tbl hs hsh l c).mp h⟩
+  · rintro ⟨l, c, rfl, h⟩; exact ⟨l, c, rfl, (missing_translation_iff tbl hs hsh l c).mpr h⟩
+
+/-- **Capstone.**  Whenever the model converts a workbook (header shapes `col` / `col::lang` for the translatable
+    columns), the warnings it emits are — as a set, every kind and subject — exactly the warnings due by the trigger
+    predicates of the specification. -/
+theorem model_meets_spec (lower : Str → Str) (wb : WB) (v : View) (res : Res) (ws : List W)
+    (hsv : trShort surveyTrTable v.svHeaders = true) (hch : trShort choicesTrTable v.chHeaders = true)
+    (h : convertOn lower wb v [] = .ok (res, ws)) (w : W) :
+    w ∈ ws ↔ w ∈ dueOn lev lower wb v := by
+  rw [convertOn_eq] at h
+  cases hcw : choicesWarnings (groupChoices (numberFrom 2 v.chRows)) with
+  | error e => simp [hcw] at h
+  | ok chW =>
+    simp only [hcw, List.nil_append] at h
+    cases hrl : rowLoop 2 v.svRows { warnings := preRows lower wb v chW } with
+    | error e => simp [hrl] at h
+    | ok st =>
+      simp only [hrl, Except.ok.injEq, Prod.mk.injEq] at h
+      obtain ⟨_, rfl⟩ := h
+      obtain ⟨hw, ho⟩ := rowLoop_ok _ _ _ _ hrl
+      simp only [Bool.false_or] at ho
+      rw [hw, ho, or_other_iff _ _ hsv hch]
+      have hchoice := choice_no_label_iff (numberFrom 2 v.chRows) chW hcw w
+      unfold preRows dueOn missingCheck
+      rw [misspell_eq, misspell_eq]
+      simp only [List.mem_append, missing_eq "survey" _ _ hsv, missing_eq "choices" _ _ hch]
+      by_cases hce : wb.choices.isEmpty = true
+      · simp only [hce, if_true, List.mem_append, or_assoc]
+      · have hce' : wb.choices.isEmpty = false := by simpa using hce
+        simp only [hce', Bool.false_eq_true, if_false, List.mem_append, hchoice, or_assoc]
+
+/-- the same at the level of `workbook_to_json` (header processing included): warnings of the model = warnings due -/
+theorem workbook_meets_spec (lower : Str → Str) (wb : WB) (res : Res) (ws : List W)
+    (h : workbookToJson lower wb [] = .ok (res, ws)) :
+    ∃ v, view wb = .ok v ∧ workbookDue lev lower wb = .ok (dueOn lev lower wb v) ∧
+      (trShort surveyTrTable v.svHeaders = true → trShort choicesTrTable v.chHeaders = true →
+        ∀ w, w ∈ ws ↔ w ∈ dueOn lev lower wb v) := by
+  unfold workbookToJson at h
+  cases hv : view wb with
+  | error e => simp [hv] at h
+  | ok v =>
+    simp only [hv] at h
+    refine ⟨v, rfl, by simp [workbookDue, hv], fun hsv hch w => model_meets_spec lower wb v res ws hsv hch h w⟩
+
+example : (convertOn lowerAscii
+    { sheetNames := ["survey".toList, "setting".toList], surveyHeader := [], survey := [], choicesHeader := [], choices := [],
+      settingsHeader := [], settingsRows := 0, hasEntities := false }
+    { chHeaders := [], chRows := [], svHeaders := [["type".toList], ["name".toList]],
+      svRows := [[(["type".toList], "simserial".toList), (["name".toList], "s".toList)]] } []).toOption.map (·.2)
+    = some [W.misspell "settings".toList ["setting".toList], W.deprecated 2 "simserial".toList] := by decide +kernel
+
 /-! ## the tables the triggers are read from (pinned: the documented sets) -/
 
 /-- the deprecated metadata types of the documentation -/
-theorem deprecated_pinned : deprecatedTypes = documentedDeprecated := by decide
+theorem deprecated_pinned : deprecatedTypes = documentedDeprecated := deprecated_pinned'
 /-- the translatable columns of the two sheets -/
 theorem translatable_pinned :
     surveyTrTable.map (·.1) = ["label", "hint", "guidance_hint", "image", "big-image", "audio", "video",
